@@ -1819,12 +1819,32 @@ class FloatData(Data[float]):
     @classmethod
     def parse_parameter(cls, parser: AttrParser) -> float:
         with parser.in_angle_brackets():
-            return float(parser.parse_number())
+            pos = parser.pos
+            value = parser.parse_number()
+            if isinstance(value, int) and parser.lexer.input.content.startswith(
+                ("0x", "0X"), pos
+            ):
+                # As for `FloatAttr`, a hexadecimal literal is the bit pattern of the
+                # value (here of an IEEE-754 binary64).
+                if value >= 1 << 64:
+                    parser.raise_error(
+                        "hexadecimal float literal out of range for a 64-bit float",
+                        pos,
+                        parser.pos,
+                    )
+                return struct.unpack("<d", value.to_bytes(8, "little"))[0]
+            return float(value)
 
     def print_parameter(self, printer: Printer) -> None:
         with printer.in_angle_brackets():
+            if not math.isfinite(self.data):
+                # `inf` and `nan` are not float literals: print the bit pattern, as
+                # `Printer.print_float` does.
+                bits = int.from_bytes(self._bits(), "little")
+                printer.print_string(f"0x{bits:X}")
+                return
             text = f"{self.data}"
-            if math.isfinite(self.data) and "." not in text:
+            if "." not in text:
                 # `1e+20` would be lexed as the integer `1` followed by `e`
                 mantissa, _, exponent = text.partition("e")
                 text = f"{mantissa}.0e{exponent}"
